@@ -7,9 +7,11 @@ R07.3 consumers of the component border override; R07.4 per-page attributes are 
 BroadcastValue.to_list/update_cell create per-row lists (no aliasing between rows); R07.5 multi-section
 first/last clearing; R07.6 every page goes through the processor before it is rendered.
 
-R07.2-R07.5 do not look at statement shapes: the functions are evaluated (FlowDT of c06: the syntax tree is
-interpreted over symbolic documents / small concrete models, nothing of the repository is imported) and the rules
-compare the stores, copies and calls that result.  R07.6 is a path property of the page loop (CFG).
+R07.2-R07.5 do not look at statement shapes: the functions are evaluated abstractly (FlowDT of c06: the syntax tree is
+interpreted over symbolic documents, every consulted condition enumerated, a loop over a symbolic collection as ONE
+generic iteration with the atoms `is first` / `is last`; nothing of the repository is imported) and the rules judge the
+stores, copies and calls of the resulting summary.  The row-identity part of R07.4 is an ownership analysis of the
+expressions BroadcastValue.to_list returns.  R07.6 is a path property of the page loop (CFG).
 """
 from __future__ import annotations
 
@@ -115,8 +117,8 @@ def r07_1(ctx: Ctx) -> None:
         for k in v:
             if not k.startswith(KNOWN_PREFIX) and "border_top" not in k and "border_bottom" not in k and "border_first_row" not in k:
                 unknown_atoms.add(k)
-        first, last = v["page.is_first_page"], v["page.is_last_page"]
-        Hl = bool(v.get("bool(document.rtf_column_header)", False)) and v.get("len(document.rtf_column_header) > 0", True)
+        first0, last0 = v.get("page.is_first_page"), v.get("page.is_last_page")
+        Hl0 = (bool(v["bool(document.rtf_column_header)"]) and v.get("len(document.rtf_column_header) > 0", True)) if "bool(document.rtf_column_header)" in v else None
         F = bool(v.get("bool(document.rtf_footnote)", False)) and bool(v.get("bool(document.rtf_footnote.text)", False))
         S = bool(v.get("bool(document.rtf_source)", False)) and bool(v.get("bool(document.rtf_source.text)", False))
         Fa = v.get("bool(document.rtf_footnote.as_table)")
@@ -136,8 +138,10 @@ def r07_1(ctx: Ctx) -> None:
         # the user's own border_top overriding body.first on selected columns is the documented per-cell behaviour
         got_top = {(r, s, "body.first" if st == "body.top(user)" else st) for r, s, st in got_top}
         # enumerate the unconsulted semantic atoms (the code did not look at them, so the result is the same for all values)
-        for Fa_, Sa_, pf_, ps_ in itertools.product([Fa] if Fa is not None else [True, False], [Sa] if Sa is not None else [True, False],
-                                                     [pf] if pf is not None else PL, [ps] if ps is not None else PL):
+        for first, last, Hl, Fa_, Sa_, pf_, ps_ in itertools.product([first0] if first0 is not None else [True, False], [last0] if last0 is not None else [True, False],
+                                                                      [Hl0] if Hl0 is not None else [True, False],
+                                                                      [Fa] if Fa is not None else [True, False], [Sa] if Sa is not None else [True, False],
+                                                                      [pf] if pf is not None else PL, [ps] if ps is not None else PL):
             if not F and Fa is None and Fa_ is False:
                 continue     # as_table irrelevant without a footnote: count the configuration once
             if not S and Sa is None and Sa_ is False:
@@ -199,10 +203,15 @@ def _copies(r) -> dict[str, tuple[str, str]]:
 
 # ---------------------------------------------------------------------------------------------------- R07.2
 
+_HEADER_SHAPES = ("is_nested_header_list", "is_flat_header_list", "is_single_header")
+
+
 def r07_2(ctx: Ctx) -> None:
-    """_render_column_headers evaluated on the three documented shapes of rtf_column_header (flat list, nested list,
-    single header), two headers each: which header copy receives rtf_page.border_first as the top edge of its row 0,
-    under which page flags"""
+    """_render_column_headers over a symbolic document: the three type guards of rtf_column_header (nested list, flat list,
+    single header) are conditions like any other and all their valuations are enumerated; the loops over the (symbolic) header
+    collections are ONE generic iteration each.  Judged: which header copy receives rtf_page.border_first as the top edge of
+    its row 0, under which conditions (first page ∧ first header ∧ border configured)"""
+    from .c06 import loop_of
     pm = ctx.pm
     fi = pm.func("PageRenderer._render_column_headers")
     ps = _params(fi)
@@ -210,58 +219,67 @@ def r07_2(ctx: Ctx) -> None:
         ctx.gap("R07.2", "_render_column_headers no longer takes (document, page)")
         return
     doc, pg = ps
-    h0, h1 = Sym("H0", "RTFColumnHeader"), Sym("H1", "RTFColumnHeader")
-    shapes = [("flat list", [h0, h1], (False, True, False)), ("nested list", [[h0], [h1]], (True, False, False)), ("single header", h0, (False, False, True))]
     bad: dict[str, str] = {}
     applied = 0
     rows_n = 0
-    for name, value, (nested, flat, single) in shapes:
-        for regime in (True, False):
-            dt = _flow(pm, atoms={f"{pg}.is_first_page": [True, False]}, classes={doc: "RTFDocument", pg: "PageContext", "self": "PageRenderer"},
-                       preset={f"{doc}.rtf_column_header": value}, relevant=("is_first_page", "rtf_page.border_first"), regime=regime, max_atoms=30,
-                       effect_calls={"encode_column_header"}, opaque={"update_row", "to_list"},
-                       call_model={"is_nested_header_list": lambda a, k, x=nested: x, "is_flat_header_list": lambda a, k, x=flat: x, "is_single_header": lambda a, k, x=single: x})
-            rows = _table(ctx, "R07.2", dt, fi, {"self": Sym("self", "PageRenderer"), doc: Sym(doc, "RTFDocument"), pg: Sym(pg, "PageContext")}, "_render_column_headers")
-            if rows is None:
-                return
-            for v, r in rows:
-                if r.raised is not None:
+    shapes_seen = set()
+    for regime in (True, False):
+        dt = _flow(pm, atoms={f"{pg}.is_first_page": [True, False]}, classes={doc: "RTFDocument", pg: "PageContext", "self": "PageRenderer"},
+                   relevant=("is_first_page", "rtf_page.border_first", " is first") + _HEADER_SHAPES, regime=regime, max_atoms=30,
+                   effect_calls={"encode_column_header"}, opaque={"update_row", "to_list"} | set(_HEADER_SHAPES))
+        rows = _table(ctx, "R07.2", dt, fi, {"self": Sym("self", "PageRenderer"), doc: Sym(doc, "RTFDocument"), pg: Sym(pg, "PageContext")}, "_render_column_headers")
+        if rows is None:
+            return
+        for v, r in rows:
+            if r.raised is not None:
+                continue
+            rows_n += 1
+            first = v.get(f"{pg}.is_first_page")
+            shape = next((g for g in _HEADER_SHAPES if any(k.startswith(f"bool({g}(") and x for k, x in v.items())), "?")
+            cp = _copies(r)
+            for k, e in enumerate(r.effects, 1):
+                if e[0] != "store" or e[2] != "border_top":
                     continue
-                rows_n += 1
-                first = v.get(f"{pg}.is_first_page")
-                cp = _copies(r)
-                for e in r.effects:
-                    if e[0] != "store" or e[2] != "border_top":
-                        continue
-                    base, val = e[1], str(e[3])
-                    if "rtf_page.border_first" not in val:
-                        continue
-                    applied += 1
-                    if base not in cp:
-                        bad.setdefault("value written into " + base, f"rtf_page.border_first is written into `{base}.border_top`, the document's own header, instead of the per-page copy")
-                        continue
-                    orig = cp[base][0]
-                    if first is not True:
-                        bad.setdefault("guard " + ("ignores is_first_page" if first is None else "applies on later pages"),
-                                       f"rtf_page.border_first is applied to the header with is_first_page={first}; required: first page ∧ first header row ∧ border configured")
-                    if orig != "H0":
-                        bad.setdefault("guard applies to header " + orig, f"rtf_page.border_first is applied to header `{orig}` ({name}); only the first header row carries the page's top edge")
-                    if v.get(f"bool({doc}.rtf_page.border_first)") is False:
-                        bad.setdefault("guard applies an empty border", "the header top edge is overwritten although rtf_page.border_first is empty")
-                    m = re.fullmatch(r"BroadcastValue\(…\)#(\d+)\.update_row\((.+?), (.+)\)", val)
-                    if not m:
-                        ctx.gap("R07.2", f"the value stored as the header's top edge (`{val[:80]}`) could not be re-identified")
-                        continue
-                    cons = r.effects[int(m.group(1)) - 1]
-                    src = str(cons[2].get("value")) if cons[0] == "construct" else "?"
-                    if m.group(2) != "0":
-                        bad.setdefault("value row " + m.group(2), f"rtf_page.border_first is written to row {m.group(2)} of the header, expected row 0")
-                    if src != f"{base}.border_top":
-                        bad.setdefault("value built from " + src[:40], f"the header's top edges are rebuilt from `{src}`, expected the copy's own border_top")
-                    if re.search(r"border_(last|top|bottom)\b", m.group(3)) or "rtf_body" in m.group(3):
-                        bad.setdefault("value " + m.group(3)[:60], f"row 0 of the header receives `{m.group(3)[:80]}`, expected rtf_page.border_first for every column")
-    ctx.instance("R07.2", fi.where(), f"header top edge: evaluated on 3 shapes of rtf_column_header x first/later page x border configured ({rows_n} paths); "
-                 f"rtf_page.border_first -> row 0 of the copy of the first header on the first page only: applied on {applied} path(s), {len(bad)} disagreement(s)")
+                base, val = e[1], str(e[3])
+                if "rtf_page.border_first" not in val:
+                    continue
+                applied += 1
+                shapes_seen.add(shape)
+                if base not in cp:
+                    bad.setdefault("value written into " + base, f"rtf_page.border_first is written into `{base}.border_top`, the document's own header, instead of the per-page copy")
+                    continue
+                orig = cp[base][0]
+                if first is not True:
+                    bad.setdefault("guard " + ("ignores is_first_page" if first is None else "applies on later pages"),
+                                   f"rtf_page.border_first is applied to the header with is_first_page={first}; required: first page ∧ first header row ∧ border configured")
+                lp = loop_of(r.effects, k)
+                if lp is not None:
+                    pos = v.get(f"{lp} is first")
+                    if pos is not True:
+                        bad.setdefault("guard applies to header " + ("at any position" if pos is None else "after the first"),
+                                       f"rtf_page.border_first is applied to header `{orig}` ({shape}) " + ("without consulting its position" if pos is None else "that is not the first one")
+                                       + "; only the first header row carries the page's top edge")
+                    if lp not in orig:
+                        bad.setdefault("guard applies to header " + orig[:60], f"inside iteration {lp} the border is written into a copy of `{orig}`, not of the iteration's own header")
+                elif orig != f"{doc}.rtf_column_header":
+                    ctx.gap("R07.2", f"the header `{orig}` that receives the page's top edge outside a loop over the headers was not re-identified")
+                if v.get(f"bool({doc}.rtf_page.border_first)") is False:
+                    bad.setdefault("guard applies an empty border", "the header top edge is overwritten although rtf_page.border_first is empty")
+                m = re.fullmatch(r"BroadcastValue\(…\)#(\d+)\.update_row\((.+?), (.+)\)", val)
+                if not m:
+                    ctx.gap("R07.2", f"the value stored as the header's top edge (`{val[:80]}`) could not be re-identified")
+                    continue
+                cons = r.effects[int(m.group(1)) - 1]
+                src = str(cons[2].get("value")) if cons[0] == "construct" else "?"
+                if m.group(2) != "0":
+                    bad.setdefault("value row " + m.group(2), f"rtf_page.border_first is written to row {m.group(2)} of the header, expected row 0")
+                if src != f"{base}.border_top":
+                    bad.setdefault("value built from " + src[:40], f"the header's top edges are rebuilt from `{src}`, expected the copy's own border_top")
+                if re.search(r"border_(last|top|bottom)\b", m.group(3)) or "rtf_body" in m.group(3):
+                    bad.setdefault("value " + m.group(3)[:60], f"row 0 of the header receives `{m.group(3)[:80]}`, expected rtf_page.border_first for every column")
+    ctx.instance("R07.2", fi.where(), f"header top edge: symbolic rtf_column_header, every valuation of the type guards (nested / flat / single) x first/later page x first/later header x border "
+                 f"configured ({rows_n} paths, generic iteration of the header loops); rtf_page.border_first -> row 0 of the copy of the first header on the first page only: applied on {applied} path(s) "
+                 f"(shapes {sorted(shapes_seen)}), {len(bad)} disagreement(s)")
     if not applied:
         ctx.gap("R07.2", "no path of _render_column_headers writes rtf_page.border_first into a header's border_top (site not re-identified)")
     for k, msg in sorted(bad.items()):
@@ -342,8 +360,140 @@ def r07_3(ctx: Ctx) -> None:
 
 # ---------------------------------------------------------------------------------------------------- R07.4
 
-def _grid(name: str, nr: int, nc: int) -> list[list[str]]:
-    return [[f"{name}{i}{j}" for j in range(nc)] for i in range(nr)]
+def _row_kinds(e: ast.AST, fn: ast.AST, elem_of: dict, depth: int = 0) -> set[str]:
+    """ownership of the ROW objects of a list-of-rows expression: 'fresh' (every row a new list object), 'stored' (rows of
+    the object's own stored block), 'repeated' (one row object can occur at several positions), 'unknown'"""
+    asg = assignments(fn)
+    if depth > 10:
+        return {"unknown"}
+    if isinstance(e, ast.Constant) and e.value is None:
+        return set()
+    if isinstance(e, ast.Attribute) and isinstance(e.value, ast.Name) and e.value.id == "self":
+        return {"stored"}
+    if isinstance(e, ast.Name):
+        if e.id in elem_of:
+            return {"unknown"}
+        vals = asg.get(e.id, [])
+        if not vals:
+            return {"unknown"}
+        out = set()
+        for v in vals:
+            if isinstance(v, ast.Constant) and isinstance(v.value, str) and v.value.startswith("<"):
+                out.add("unknown")
+            else:
+                out |= _row_kinds(v, fn, elem_of, depth + 1)
+        # an accumulator filled in place
+        for c in walk_no_nested(fn):
+            if isinstance(c, ast.Call) and isinstance(c.func, ast.Attribute) and isinstance(c.func.value, ast.Name) and c.func.value.id == e.id and c.args:
+                if c.func.attr == "append":
+                    out |= _one_row(c.args[0], fn, _loop_vars(c, fn), depth + 1)
+                elif c.func.attr in ("extend", "insert"):
+                    out |= _row_kinds(c.args[-1], fn, elem_of, depth + 1) if c.func.attr == "extend" else _one_row(c.args[-1], fn, _loop_vars(c, fn), depth + 1)
+        return out
+    if isinstance(e, (ast.ListComp, ast.GeneratorExp)):
+        ev = dict(elem_of)
+        for g in e.generators:
+            if isinstance(g.target, ast.Name):
+                ev[g.target.id] = g.iter
+            elif isinstance(g.target, (ast.Tuple, ast.List)):
+                it = g.iter
+                if isinstance(it, ast.Call) and dotted(it.func) == "enumerate" and it.args and len(g.target.elts) == 2 and isinstance(g.target.elts[1], ast.Name):
+                    ev[g.target.elts[1].id] = it.args[0]
+        return _one_row(e.elt, fn, ev, depth + 1)
+    if isinstance(e, ast.BinOp) and isinstance(e.op, ast.Mult):
+        side = e.left if not isinstance(e.left, ast.Constant) else e.right
+        inner = _row_kinds(side, fn, elem_of, depth + 1)
+        return (inner - {"fresh"}) | {"repeated"}                       # L * k puts every row object k times into the result
+    if isinstance(e, ast.BinOp) and isinstance(e.op, ast.Add):
+        return _row_kinds(e.left, fn, elem_of, depth + 1) | _row_kinds(e.right, fn, elem_of, depth + 1)
+    if isinstance(e, ast.Subscript) and isinstance(e.slice, ast.Slice):
+        return _row_kinds(e.value, fn, elem_of, depth + 1)              # a slice is a new outer list of the SAME row objects
+    if isinstance(e, ast.IfExp):
+        return _row_kinds(e.body, fn, elem_of, depth + 1) | _row_kinds(e.orelse, fn, elem_of, depth + 1)
+    if isinstance(e, ast.Call):
+        d = dotted(e.func).split(".")[-1]
+        if d in ("list", "tuple", "copy", "sorted", "reversed") and (e.args or isinstance(e.func, ast.Attribute)):
+            return _row_kinds(e.args[0] if e.args else e.func.value, fn, elem_of, depth + 1)
+        if d == "deepcopy" and e.args:
+            inner = _row_kinds(e.args[0], fn, elem_of, depth + 1)
+            return {"repeated"} if "repeated" in inner else ({"unknown"} if "unknown" in inner else {"fresh"})      # deepcopy keeps internal sharing
+        return {"unknown"}
+    if isinstance(e, ast.List):
+        out = set()
+        for x in e.elts:
+            out |= _one_row(x, fn, elem_of, depth + 1)
+        names = [x.id for x in e.elts if isinstance(x, ast.Name)]
+        if len(names) != len(set(names)):
+            out.add("repeated")
+        return out
+    return {"unknown"}
+
+
+def _loop_vars(node: ast.AST, fn: ast.AST) -> dict:
+    """loop variable -> iterated expression for the for-loops around a node"""
+    out = {}
+    for a in _anc(node, fn):
+        if isinstance(a, ast.For):
+            if isinstance(a.target, ast.Name):
+                out.setdefault(a.target.id, a.iter)
+            elif isinstance(a.target, (ast.Tuple, ast.List)) and isinstance(a.iter, ast.Call) and dotted(a.iter.func) == "enumerate" and a.iter.args and len(a.target.elts) == 2 \
+                    and isinstance(a.target.elts[1], ast.Name):
+                out.setdefault(a.target.elts[1].id, a.iter.args[0])
+    return out
+
+
+def _one_row(e: ast.AST, fn: ast.AST, elem_of: dict, depth: int = 0) -> set[str]:
+    """ownership of ONE row expression evaluated once per element of a loop / comprehension"""
+    if depth > 10:
+        return {"unknown"}
+    if isinstance(e, ast.Name) and e.id in elem_of:
+        return _row_kinds(elem_of[e.id], fn, {k: v for k, v in elem_of.items() if k != e.id}, depth + 1)     # the element itself: a row object of the iterated list
+    if isinstance(e, ast.Name):
+        vals = assignments(fn).get(e.id, [])
+        if len(vals) == 1 and not (isinstance(vals[0], ast.Constant) and isinstance(vals[0].value, str) and vals[0].value.startswith("<")):
+            return _one_row(vals[0], fn, elem_of, depth + 1)
+        return {"unknown"}
+    if isinstance(e, ast.BinOp) and isinstance(e.op, (ast.Mult, ast.Add)):
+        return {"fresh"}                                                 # list * k, list + list: a new list object per evaluation
+    if isinstance(e, ast.Subscript) and isinstance(e.slice, ast.Slice):
+        return {"fresh"}                                                 # a slice is a new list object
+    if isinstance(e, (ast.List, ast.ListComp)):
+        return {"fresh"}
+    if isinstance(e, ast.Call):
+        d = dotted(e.func).split(".")[-1]
+        if d in ("list", "copy", "deepcopy", "sorted"):
+            return {"fresh"}
+    if isinstance(e, ast.Subscript):                                     # rows[k]: one row object of another list
+        return (_row_kinds(e.value, fn, elem_of, depth + 1) - {"fresh"}) | {"repeated"}
+    return {"unknown"}
+
+
+def _expansion_rows(ctx: Ctx) -> None:
+    """ownership analysis of BroadcastValue.to_list: a later single-cell border write goes into one ROW of what it returns, so
+    the rows of an expansion must be pairwise distinct list objects (not one row object repeated by `rows * k`)"""
+    pm = ctx.pm
+    fi = pm.func("BroadcastValue.to_list")
+    fn = fi.node
+    rets = [x for x in walk_no_nested(fn) if isinstance(x, ast.Return) and x.value is not None]
+    n = 0
+    for rt in rets:
+        e = rt.value
+        if isinstance(e, ast.Constant) and e.value is None:
+            continue
+        n += 1
+        if isinstance(e, ast.Attribute) and isinstance(e.value, ast.Name) and e.value.id == "self":
+            ctx.instance("R07.4", fi.where(rt), f"to_list returns the stored block `{unparse(e)}` itself (no expansion on this path)")
+            continue
+        kinds = _row_kinds(e, fn, {})
+        ctx.instance("R07.4", fi.where(rt), f"to_list returns `{unparse(e)[:70]}`: row objects are {sorted(kinds) or ['none']}")
+        if "repeated" in kinds:
+            ctx.violation("R07.4", fi.short, "aliased rows " + unparse(e)[:80], fi.where(rt),
+                          f"BroadcastValue.to_list returns `{unparse(e)[:80]}` whose rows are one list object repeated (`rows * k` without a per-row copy / slice): writing one cell's border into "
+                          "the expansion changes the same cell of other rows")
+        elif "unknown" in kinds:
+            ctx.gap("R07.4", f"BroadcastValue.to_list: whether the rows of `{unparse(e)[:60]}` are distinct list objects could not be decided")
+    if not n:
+        ctx.gap("R07.4", "BroadcastValue.to_list: no returned expansion was re-identified")
 
 
 def r07_4(ctx: Ctx) -> None:
@@ -422,7 +572,8 @@ def r07_4(ctx: Ctx) -> None:
         ctx.instance("R07.4", ap.where(), f"_apply_border_to_cell evaluated for top/bottom ({n} paths): expand border_<side> to the page shape, update one cell, store back: {len(bad)} disagreement(s)")
         for k, msg in sorted(bad.items()):
             ctx.violation("R07.4", ap.short, "cell update", ap.where(), "a single edge is no longer written by expanding the attribute to the page shape and updating exactly (row, col): " + msg)
-    # ---- (c) update_cell on concrete blocks: exactly one entry changes, the rows of the result are fresh lists
+    # ---- (c) update_cell over symbolic (row, column, value): the matrix becomes the expansion self.to_list() and exactly the element
+    #      [row][column] of that expansion is written; the rows of the expansion are pairwise distinct objects (ownership analysis of to_list)
     uc = pm.func("BroadcastValue.update_cell")
     ps = _params(uc)
     if len(ps) != 3:
@@ -430,30 +581,31 @@ def r07_4(ctx: Ctx) -> None:
     else:
         bad = {}
         n = 0
-        for (nr, nc), dim, (ri, ci) in (((1, 1), (3, 2), (1, 0)), ((1, 2), (3, 2), (2, 1)), ((2, 2), (4, 2), (3, 0)), ((3, 2), (3, 2), (0, 1)), ((4, 2), (3, 2), (1, 1))):
-            block = _grid("b", nr, nc)
-            orig = [list(x) for x in block]
-            dt = _flow(pm, preset={"self.value": block, "self.dimension": dim}, max_atoms=6, root_cls="BroadcastValue")
-            rows = _table(ctx, "R07.4", dt, uc, {"self": Sym("self", "BroadcastValue"), ps[0]: ri, ps[1]: ci, ps[2]: "NEW"}, "BroadcastValue.update_cell")
-            if rows is None:
-                break
-            if len(rows) != 1 or rows[0][1].raised is not None:
-                ctx.gap("R07.4", f"BroadcastValue.update_cell is not decided on a {nr}x{nc} block ({rows[0][1].raised if rows else 'no path'})")
-                break
+        dt = _flow(pm, classes={"self": "BroadcastValue"}, effect_calls={"to_list"}, max_atoms=8, root_cls="BroadcastValue")
+        rows = _table(ctx, "R07.4", dt, uc, {"self": Sym("self", "BroadcastValue"), **{p_: Sym(p_) for p_ in ps}}, "BroadcastValue.update_cell")
+        for v, r in rows or []:
+            if r.raised is not None:
+                continue
+            st = [e for e in r.effects if e[0] == "store"]
+            if not st:
+                continue                                   # nothing to update (value is None)
             n += 1
-            out = rows[0][1].stores.get("self.value")
-            want = [[("NEW" if (i, j) == (ri, ci) else orig[i % nr][j % nc]) for j in range(dim[1])] for i in range(dim[0])]
-            tag = f"{nr}x{nc} block to {dim[0]}x{dim[1]}, cell ({ri}, {ci})"
-            if not (isinstance(out, list) and all(isinstance(x, list) for x in out)):
-                ctx.gap("R07.4", f"BroadcastValue.update_cell leaves value = `{str(out)[:60]}` ({tag})")
-                break
-            if out != want:
-                bad.setdefault("update_cell", f"{tag}: the matrix becomes {out}, expected {want} (exactly one entry written)")
-            elif dt.preset["self.value"] != orig and block != orig:
-                bad.setdefault("update_cell writes through", f"{tag}: the stored block itself was modified")
-        ctx.instance("R07.4", uc.where(), f"update_cell evaluated on {n} (block, shape, cell) models: expands, then writes exactly [row][col]: {len(bad)} disagreement(s)")
+            exp = [e for e in st if e[1] == "self" and e[2] == "value"]
+            cells = [e for e in st if str(e[2]).startswith("[")]
+            if len(exp) != 1 or not re.fullmatch(r"self\.to_list\(…\)#\d+", str(exp[0][3])):
+                ctx.gap("R07.4", f"BroadcastValue.update_cell: the matrix is not replaced by its expansion self.to_list() (stores {[(e[1], e[2], e[3]) for e in st][:3]})")
+                continue
+            m_ = str(exp[0][3])
+            want = (f"{m_}[{ps[0]}]", f"[{ps[1]}]", ps[2])
+            got = [(e[1], e[2], str(e[3])) for e in cells]
+            if got != [want]:
+                bad.setdefault("update_cell", f"element stores {got} on the expansion `{m_}`, expected exactly one: {want[0]}{want[1]} = {want[2]}")
+        ctx.instance("R07.4", uc.where(), f"update_cell over symbolic (row, column, value), {n} updating path(s): value := self.to_list(), then exactly value[row][column] = cell value: {len(bad)} disagreement(s)")
+        if rows is not None and not n:
+            ctx.gap("R07.4", "BroadcastValue.update_cell: no evaluated path writes a cell")
         for k, msg in sorted(bad.items()):
             ctx.violation("R07.4", uc.short, k, uc.where(), "update_cell no longer writes exactly value[row][col] of the expanded matrix: " + msg)
+    _expansion_rows(ctx)
     # ---- (d) interior cells: no other store to border_* on the encode path outside the processor / renderer header copy / footnote override
     allowed = {FN, "PageFeatureProcessor._apply_border_to_cell", "PageRenderer._render_column_headers", "RTFEncodingService.encode_footnote",
                "RTFEncodingService.encode_source", "RTFBody._set_border_defaults", "UnifiedRTFEncoder._encode_multi_section",
@@ -516,8 +668,10 @@ def r07_4(ctx: Ctx) -> None:
 # ---------------------------------------------------------------------------------------------------- R07.5
 
 def r07_5(ctx: Ctx) -> None:
-    """multi-section documents evaluated on models of 1, 2, 3 sections: the page configuration section k is encoded with is
-    a copy of rtf_page whose border_first is cleared iff k > 0 and whose border_last is cleared iff k < n-1"""
+    """multi-section documents over a symbolic document: the loop over the (symbolic) sections is ONE generic iteration with the
+    atoms `is first` / `is last`; the page configuration a section is encoded with is a copy of rtf_page whose border_first is
+    cleared iff the section is not the first and whose border_last is cleared iff it is not the last"""
+    from .c06 import loop_of
     pm = ctx.pm
     fi = pm.func("UnifiedRTFEncoder._encode_multi_section")
     ps = _params(fi)
@@ -526,53 +680,58 @@ def r07_5(ctx: Ctx) -> None:
         return
     doc = ps[0]
     bad: dict[str, str] = {}
-    n_calls = 0
-    for n in (1, 2, 3):
-        dfs, bodies = [Sym(f"D{k}") for k in range(n)], [Sym(f"B{k}", "RTFBody") for k in range(n)]
-        for regime in (True, False):
-            dt = _flow(pm, classes={doc: "RTFDocument", "self": "UnifiedRTFEncoder"}, preset={f"{doc}.df": dfs, f"{doc}.rtf_body": bodies},
-                       effect_calls={"_encode_body_section"}, relevant=("<none>",), regime=regime, max_atoms=40, opaque={"to_list", "update_row"})
-            rows = _table(ctx, "R07.5", dt, fi, {"self": Sym("self", "UnifiedRTFEncoder"), doc: Sym(doc, "RTFDocument")}, "_encode_multi_section")
-            if rows is None:
-                return
-            for v, r in rows:
-                if r.raised is not None:
+    n_calls = n_rows = 0
+    for regime in (True, False):
+        dt = _flow(pm, classes={doc: "RTFDocument", "self": "UnifiedRTFEncoder"}, effect_calls={"_encode_body_section"}, relevant=(" is first", " is last"), regime=regime, max_atoms=40,
+                   opaque={"to_list", "update_row"})
+        rows = _table(ctx, "R07.5", dt, fi, {"self": Sym("self", "UnifiedRTFEncoder"), doc: Sym(doc, "RTFDocument")}, "_encode_multi_section")
+        if rows is None:
+            return
+        for v, r in rows:
+            if r.raised is not None:
+                continue
+            n_rows += 1
+            cp = _copies(r)
+            for k, e in enumerate(r.effects, 1):
+                if e[0] != "call" or e[1] != "_encode_body_section":
                     continue
-                calls = [e for e in r.effects if e[0] == "call" and e[1] == "_encode_body_section"]
-                cp = _copies(r)
-                if len(calls) != n:
-                    bad.setdefault(f"{len(calls)} section(s) encoded for {n}", f"{len(calls)} section(s) are encoded for a document of {n} section(s)")
+                lp = loop_of(r.effects, k)
+                if lp is None:
+                    ctx.gap("R07.5", "a section is encoded outside a loop over the sections")
                     continue
-                for k, e in enumerate(calls):
-                    n_calls += 1
-                    d = str(e[4].get("document", e[3][0] if e[3] else "?"))
-                    page = r.stores.get(f"{d}.rtf_page")
-                    if d not in cp or page is None:
-                        ctx.gap("R07.5", f"section {k}: the document the section is encoded with (`{d}`) is not a copy of the document with its own rtf_page")
-                        continue
-                    pp = page.path if isinstance(page, Sym) else str(page)
-                    if pp not in cp or cp[pp][0] != f"{doc}.rtf_page":
-                        if pp == f"{doc}.rtf_page":
-                            cleared = [a for a in ("border_first", "border_last") if f"{pp}.{a}" in r.stores]
-                            if cleared:
-                                bad.setdefault("section borders cleared on the shared page", f"section {k} of {n}: {cleared} are cleared on document.rtf_page itself, not on a per-section copy")
-                                continue
-                        ctx.gap("R07.5", f"section {k}: the page configuration `{pp}` is not a copy of {doc}.rtf_page")
-                        continue
-                    for attr, want in (("border_first", k > 0), ("border_last", k < n - 1)):
-                        key = f"{pp}.{attr}"
-                        got = key in r.stores and r.stores[key] is None
-                        kept = key in r.stores and isinstance(r.stores[key], Sym) and r.stores[key].path == f"{doc}.rtf_page.{attr}"
-                        if key in r.stores and r.stores[key] is not None and not kept:
-                            ctx.gap("R07.5", f"section {k}: {attr} of the section page is set to `{r.stores[key]}`")
-                        elif got != want:
-                            bad.setdefault(f"section borders {attr} {'cleared' if got else 'kept'} for section {k} of {n}",
-                                           f"section {k} of {n}: rtf_page.{attr} is {'cleared' if got else 'kept'}; it must be cleared " +
-                                           ("for every section after the first" if attr == "border_first" else "for every section before the last") + " and only there")
-    ctx.instance("R07.5", fi.where(), f"multi-section: {n_calls} section encodings on models of 1-3 sections: per-section copy of rtf_page, border_first cleared iff not first, "
-                 f"border_last cleared iff not last: {len(bad)} disagreement(s)")
+                n_calls += 1
+                first, last = v.get(f"{lp} is first"), v.get(f"{lp} is last")
+                d = str(e[4].get("document", e[3][0] if e[3] else "?"))
+                page = r.stores.get(f"{d}.rtf_page")
+                if d not in cp or page is None:
+                    ctx.gap("R07.5", f"the document a section is encoded with (`{d}`) is not a copy of the document with its own rtf_page")
+                    continue
+                pp = page.path if isinstance(page, Sym) else str(page)
+                if pp not in cp or cp[pp][0] != f"{doc}.rtf_page":
+                    if pp == f"{doc}.rtf_page":
+                        cleared = [a for a in ("border_first", "border_last") if f"{pp}.{a}" in r.stores]
+                        if cleared:
+                            bad.setdefault("section borders cleared on the shared page", f"{cleared} are cleared on document.rtf_page itself, not on a per-section copy")
+                            continue
+                    ctx.gap("R07.5", f"the page configuration `{pp}` of a section is not a copy of {doc}.rtf_page")
+                    continue
+                for attr, pos, name in (("border_first", first, "first"), ("border_last", last, "last")):
+                    key = f"{pp}.{attr}"
+                    got = key in r.stores and r.stores[key] is None
+                    kept = key in r.stores and isinstance(r.stores[key], Sym) and r.stores[key].path == f"{doc}.rtf_page.{attr}"
+                    if key in r.stores and r.stores[key] is not None and not kept:
+                        ctx.gap("R07.5", f"{attr} of the section page is set to `{r.stores[key]}`")
+                    elif pos is None:
+                        bad.setdefault(f"section borders {attr} {'cleared' if got else 'kept'} for every section",
+                                       f"rtf_page.{attr} is {'cleared' if got else 'kept'} without consulting whether the section is the {name} one")
+                    elif got != (not pos):
+                        bad.setdefault(f"section borders {attr} {'cleared' if got else 'kept'} for the {'' if pos else 'non-'}{name} section",
+                                       f"rtf_page.{attr} is {'cleared' if got else 'kept'} for a section that is {'' if pos else 'not '}the {name} one; it must be cleared " +
+                                       ("for every section after the first" if attr == "border_first" else "for every section before the last") + " and only there")
+    ctx.instance("R07.5", fi.where(), f"multi-section: ONE generic iteration of the section loop, {n_rows} valuation(s) of (is first, is last), {n_calls} section encoding(s): per-section copy of rtf_page, "
+                 f"border_first cleared iff not first, border_last cleared iff not last: {len(bad)} disagreement(s)")
     if not n_calls:
-        ctx.gap("R07.5", "no section encoding was reached on the multi-section models")
+        ctx.gap("R07.5", "no section encoding was reached in the generic iteration of the section loop")
     for k, msg in sorted(bad.items()):
         ctx.violation("R07.5", fi.short, k, fi.where(), "multi-section documents must clear rtf_page.border_first for sections after the first and border_last for sections "
                       "before the last (on a copy): " + msg)
@@ -730,18 +889,23 @@ def _anc(n, stop):
 
 
 def check(ctx: Ctx) -> None:
+    from .c06 import ABSTRACTION
+    ctx.explain(ABSTRACTION)
     ctx.explain(
         "R07.1 the border logic (_apply_pagination_borders with _apply_body_border_first, _apply_footnote_source_borders and "
         "_should_show_element inlined) is evaluated as a decision table over symbolic configuration atoms with lazy atom "
         "discovery; every leaf's effects (which row, which side, which style source; component border overrides) are compared "
         "with the documented three-tier hierarchy on every configuration of first/last x header x footnote{text,as_table,"
-        "placement} x source{…} (exhaustive). R07.2 the header renderer evaluated on the three shapes of rtf_column_header: which "
-        "header copy gets rtf_page.border_first on row 0, on which pages. R07.3 render hands page.component_borders[c] to the encoder; "
-        "the encoder evaluated with/without override: bottom border of a copy, which is what gets encoded. R07.4 per-page deep copy, "
-        "single-cell update evaluated symbolically and on concrete blocks, to_list freshness (tablecore), no other border stores, data cells "
-        "read their own (i,j). R07.5 multi-section first/last clearing on models of 1-3 sections. R07.6 path property of the page loop.")
+        "placement} x source{…} (exhaustive). R07.2 the header renderer over a symbolic rtf_column_header: all valuations of the three type guards "
+        "(nested / flat / single), generic iteration of the header loops: which header copy gets rtf_page.border_first on row 0, under which conditions. "
+        "R07.3 render hands page.component_borders[c] to the encoder; "
+        "the encoder evaluated with/without override: bottom border of a copy, which is what gets encoded. R07.4 per-page deep copy (value tracing), "
+        "single-cell update evaluated symbolically (_apply_border_to_cell, BroadcastValue.update_cell), ownership analysis of the rows BroadcastValue.to_list "
+        "returns (no row object repeated), no other border stores, data cells read their own (i,j). R07.5 multi-section first/last clearing: ONE generic "
+        "iteration of the section loop over (is first, is last). R07.6 path property of the page loop.")
     ctx.assume("a configured column-header list renders at least one header row on the first page (the Hl/Hr distinction of DESIGN.md appendix C is not decided)")
     ctx.assume("border styles rtf_page.border_first/last and rtf_body.border_first/last are non-empty (when empty there is nothing to apply)")
+    ctx.assume("conditions are independent atoms; in R07.2 / R07.5 conditions that mention none of the relevant names are pinned to one value per regime (all true / all false)")
     ctx.undecided("border widths and colours (never emitted, see C09); page_by without column headers (excluded by the property for the top-edge clause)")
     r07_1(ctx)
     r07_2(ctx)
